@@ -26,6 +26,12 @@ pub mod runtime {
     /// harness that polls tasks by hand brackets each poll with `model_set_context`.
     #[derive(Debug, Clone)]
     pub struct Handle;
+    #[derive(Debug, Clone, Copy, PartialEq, Eq)]
+    #[non_exhaustive]
+    pub enum RuntimeFlavor {
+        CurrentThread,
+        MultiThread,
+    }
     #[derive(Debug)]
     pub struct TryCurrentError;
     impl std::fmt::Display for TryCurrentError {
@@ -59,6 +65,9 @@ pub mod runtime {
             F::Output: Send + 'static,
         {
             crate::task::spawn(future)
+        }
+        pub fn runtime_flavor(&self) -> RuntimeFlavor {
+            RuntimeFlavor::CurrentThread
         }
         pub fn current() -> Handle {
             Handle::try_current().expect("there is no reactor running, must be called from the context of a Tokio 1.x runtime")
